@@ -1,5 +1,5 @@
 import ILV.Drv.Common
-import ILV.Model.Text
+import ILV.Model.RuleText
 /-
   Driver for C09.  `c09.rt <xhex source> <AST prefix code…>`, `c09.e2e …` (same arguments),
   `c09.builtins`.  Prefix code (harness/src/p/c09.rs `wire_rule`):
@@ -10,7 +10,7 @@ import ILV.Model.Text
     AExpr := v xname | i int | f bits xtext | b op AExpr AExpr
 -/
 namespace ILV.Drv.C09
-open ILV ILV.Text
+open ILV ILV.RText
 
 def unx (s : String) : Option String :=
   match s.toList with
